@@ -2,7 +2,7 @@
 # ./selftest.sh determinism [runs]   every run index of every batch of every property is executed in separate
 #                                    processes: twice with one worker, and split over 4 and 16 workers; the
 #                                    hashes of the complete recorded histories must be identical.
-# ./selftest.sh sensitivity          every seeded change under seeded/ must be caught by the check recorded in
+# ./selftest.sh sensitivity [glob]   every seeded change (or those whose id matches the glob, e.g. '*-[gh]') under seeded/ must be caught by the check recorded in
 #                                    its meta.json (applies it to /repo, runs the check, reverts).
 cd /verif || exit 2
 SIM=/verif/sim/target/release/simctl
@@ -30,7 +30,7 @@ determinism)
   exit $FAIL ;;
 sensitivity)
   FAIL=0
-  for D in seeded/*/; do
+  for D in seeded/${2:-*}/; do
     ID=$(basename $D)
     [ -f $D/meta.json ] || continue
     for P in $(python3 -c "import json;print(' '.join(json.load(open('$D/meta.json'))['caught_by']))"); do
